@@ -175,3 +175,27 @@ def certify(ctx, models_path, models, name="certs"):
 
 def close(a, b, tol=1e-6):
     return abs(a - b) <= tol * max(1.0, abs(a), abs(b))
+
+
+def max_violation(m, r):
+    """(largest absolute violation of a row or a bound by the returned point, scale of the model and the point): floats, used only to
+    assign a failure to a class of KNOWN_FINDINGS - the verdict itself comes from the verified checker"""
+    def pf(x):
+        return {"inf": float("inf"), "-inf": float("-inf"), "NaN": float("nan")}.get(x, None) if isinstance(x, str) and x in ("inf", "-inf", "NaN") else float(x)
+    val = {a: float(v) for a, v in r["assign"]}
+    xs = [val.get(n, 0.0) for n in m["vars"]]
+    worst, scale = 0.0, 1.0
+    for row in m["rows"]:
+        lhs = sum(pf(a) * x for a, x in zip(row["a"], xs))
+        b = pf(row["b"])
+        scale = max(scale, abs(b))
+        d = lhs - b
+        worst = max(worst, {"le": max(d, 0.0), "lt": max(d, 0.0), "ge": max(-d, 0.0), "gt": max(-d, 0.0)}.get(row["cmp"], abs(d)))
+    for t, x in zip(m["types"], xs):
+        scale = max(scale, abs(x))
+        if t["k"] == "Bool":
+            lo, hi = 0.0, 1.0
+        else:
+            lo, hi = pf(t["lo"]), pf(t["hi"])
+        worst = max(worst, lo - x if x < lo else 0.0, x - hi if x > hi else 0.0)
+    return worst, scale
